@@ -900,10 +900,25 @@ func (x *explorer) step(s *PState) []succ {
 				st2[n.ValVar.ID] = Val{T: mk("re", "", xr)}
 			}
 			ls := append(append([]Label{}, labels...), Label{Kind: "rangenext", Key: key, T: xr, Node: n})
-			out = append(out, succ{n: n.Succ[0], st: st2, facts: ageFacts(s.Facts), labels: ls})
+			fs := ageFacts(s.Facts)
+			if n.First && (xr.Op != "closure") {
+				// a first iteration: the collection is not empty
+				if ea := emptyAtom(xr, true); strings.HasPrefix(ea.Key, "Empty(") {
+					ls = append(ls, Label{Kind: "atom", Key: ea.Key, Pol: !ea.Pol, T: xr, Node: n, Implied: true})
+					fs = copyFacts(fs)
+					fs["NE:"+ea.Key[6:len(ea.Key)-1]] = true
+				}
+			}
+			out = append(out, succ{n: n.Succ[0], st: st2, facts: fs, labels: ls})
 		}
 		if doneOK {
 			ls := append(append([]Label{}, labels...), Label{Kind: "rangedone", Key: key, T: xr, Node: n})
+			if n.First && (xr.Op != "closure") {
+				// done without a first iteration: the collection is empty
+				if ea := emptyAtom(xr, true); strings.HasPrefix(ea.Key, "Empty(") {
+					ls = append(ls, Label{Kind: "atom", Key: ea.Key, Pol: ea.Pol, T: xr, Node: n, Implied: true})
+				}
+			}
 			st3 := copyStore(st)
 			age(st3)
 			out = append(out, succ{n: n.Succ[1], st: st3, facts: ageFacts(s.Facts), labels: ls})
